@@ -504,8 +504,11 @@ theorem runAlg_lexLeq (ps : List Int) (B : Box) : runAlg .lexLeq ps B = .ok (lex
 
 namespace Lex
 
+/-- the even arities: `x` and `y` have the same length (an odd arity has one more, ignored, variable) -/
+def EvenC (B : Box) : Prop := 2 ≤ B.length ∧ B.length % 2 = 0
+
 /-- everything known about one call, in terms of the two halves -/
-theorem lexLeq_spec (B : Box) (hc : Contract .lexLeq [] B) (hne : B.Nonempty) :
+theorem lexLeq_spec (B : Box) (hc : EvenC B) (hne : B.Nonempty) :
     let n := B.length / 2
     let r := lexState1 n (n + 1) 0 (B.take n) (B.drop n)
     (B.take n).length = n ∧ (B.drop n).length = n ∧
@@ -513,7 +516,7 @@ theorem lexLeq_spec (B : Box) (hc : Contract .lexLeq [] B) (hne : B.Nonempty) :
     (r.1 = .ent → ∀ xs ys, inBox xs r.2.1 → inBox ys r.2.2 → lexLe xs ys) ∧
     (r.1 = .cons → NG n r.2.1 r.2.2) := by
   intro n r
-  simp only [Contract] at hc
+  simp only [EvenC] at hc
   have hx : (B.take n).length = n := by simp [n]; omega
   have hy : (B.drop n).length = n := by simp [n]; omega
   obtain ⟨a, b, c⟩ := state1_spec n (n + 1) 0 (B.take n) (B.drop n) r hx hy
@@ -541,8 +544,12 @@ theorem getDom_append_right {X Y : Box} (j : Nat) : getDom (X ++ Y) (X.length + 
 
 end Lex
 
-theorem sound_lexLeq : Sound .lexLeq := by
-  intro ps B st B' hc hne hrun
+namespace Lex
+
+theorem sound_even (ps : List Int) (B : Box) (st : Status) (B' : Box) (hc : EvenC B) (hne : B.Nonempty)
+    (hrun : runAlg .lexLeq ps B = .ok (st, B')) :
+    (st ≠ .inc → Box.le B' B ∧ B'.Nonempty ∧ ∀ t, inBox t B → rel .lexLeq ps t → inBox t B') ∧
+    (st = .inc → ∀ t, inBox t B → ¬ rel .lexLeq ps t) := by
   rw [runAlg_lexLeq] at hrun
   injection hrun with hrun
   obtain ⟨hx, hy, hs, _, _⟩ := lexLeq_spec B hc hne
@@ -562,9 +569,10 @@ theorem sound_lexLeq : Sound .lexLeq := by
   · obtain ⟨t1, t2⟩ := inBox_take_drop (B.length / 2) ht
     exact hs.inc hst _ _ t1 t2 ((rel_lexLeq_iff ht).mp hrel)
 
-theorem entailOk_lexLeq : EntailOk .lexLeq := by
-  intro ps B B' hc hne hrun t ht
-  have hsound := (sound_lexLeq ps B .ent B' hc hne hrun).1 (by simp)
+theorem entail_even (ps : List Int) (B B' : Box) (hc : EvenC B) (hne : B.Nonempty)
+    (hrun : runAlg .lexLeq ps B = .ok (.ent, B')) : ∀ t, inBox t B' → rel .lexLeq ps t := by
+  intro t ht
+  have hsound := (sound_even ps B .ent B' hc hne hrun).1 (by simp)
   rw [runAlg_lexLeq] at hrun
   injection hrun with hrun
   obtain ⟨hx, hy, hs, he, _⟩ := lexLeq_spec B hc hne
@@ -580,12 +588,12 @@ theorem entailOk_lexLeq : EntailOk .lexLeq := by
   rw [List.drop_left' hlx] at t2
   exact he h1 _ _ t1 t2
 
-theorem groundOk_lexLeq : GroundOk .lexLeq := by
-  intro ps B st B' t hc hne hrun hst hB'
-  simp only [relW]
+theorem ground_even (ps : List Int) (B : Box) (st : Status) (B' : Box) (t : List Int) (hc : EvenC B)
+    (hne : B.Nonempty) (hrun : runAlg .lexLeq ps B = .ok (st, B')) (hst : st ≠ .inc)
+    (hB' : B' = pointBox t) : rel .lexLeq ps t := by
   cases st with
   | inc => exact absurd rfl hst
-  | ent => exact entailOk_lexLeq ps B B' hc hne hrun t (hB' ▸ inBox_pointBox_self t)
+  | ent => exact entail_even ps B B' hc hne hrun t (hB' ▸ inBox_pointBox_self t)
   | cons =>
     exfalso
     rw [runAlg_lexLeq] at hrun
@@ -603,12 +611,7 @@ theorem groundOk_lexLeq : GroundOk .lexLeq := by
     rw [← this, h2, hB']
     exact ⟨getDom_pointBox_ground _ _, getDom_pointBox_ground _ _⟩
 
-theorem contractMono_lexLeq : ContractMono .lexLeq := by
-  intro ps B B' hc hle
-  simp only [Contract] at *
-  rw [Box.le_length hle]; exact hc
-
-theorem safe_lexLeq : Safe .lexLeq := fun ps B _ _ => ⟨_, runAlg_lexLeq ps B⟩
+end Lex
 
 /-- a mask that watches MIN and MAX everywhere: a quiet sub-box is the input itself -/
 theorem Lex.trigOk_of_minMax (a : Alg) (hs : Sound a) (hm : ∀ ps n k, maskAlg a ps n k = Ev.minMax) : TrigOk a := by
@@ -623,8 +626,6 @@ theorem Lex.trigOk_of_minMax (a : Alg) (hs : Sound a) (hm : ∀ ps n k, maskAlg 
   have e' : B' = B'' := Box.le_antisymm hB'B hle
   subst e'
   exact ⟨st, hrun, hst⟩
-
-theorem trigOk_lexLeq : TrigOk .lexLeq := Lex.trigOk_of_minMax .lexLeq sound_lexLeq (fun _ _ _ => rfl)
 
 namespace Lex
 
@@ -1163,12 +1164,12 @@ theorem rel_mk (ps : List Int) (gx gy : Nat → Int) (n : Nat) :
   simp only [rel, hl, lexF, List.drop_zero]
   rw [List.take_left' (length_mk gx n), List.drop_left' (length_mk gx n)]
 
-end Lex
-
-open Lex
-
-theorem exact_lexLeq : Exact .lexLeq := by
-  intro ps B st B' hc hne hrun hst
+theorem exact_even (ps : List Int) (B : Box) (st : Status) (B' : Box) (hc : EvenC B) (hne : B.Nonempty)
+    (hrun : runAlg .lexLeq ps B = .ok (st, B')) (hst : st ≠ .inc) :
+    (∀ k, k < B'.length →
+      (∃ t, inBox t B' ∧ rel .lexLeq ps t ∧ getI t k = (getDom B' k).1) ∧
+      (∃ t, inBox t B' ∧ rel .lexLeq ps t ∧ getI t k = (getDom B' k).2)) ∧
+    (∃ st', runAlg .lexLeq ps B' = .ok (st', B') ∧ st' ≠ .inc) := by
   rw [runAlg_lexLeq] at hrun
   injection hrun with hrun
   obtain ⟨hx, hy, hs, _, _⟩ := lexLeq_spec B hc hne
@@ -1220,5 +1221,283 @@ theorem exact_lexLeq : Exact .lexLeq := by
     have hl : (X ++ Y).length / 2 = n := by simp [hX, hY]; omega
     simp only [lexLeq, hl]
     rw [List.take_left' hX, List.drop_left' hX, hidem]
+
+
+/-! ### odd arities: the last variable is ignored -/
+
+/-- the answer on `(x, y)` with `z` appended to `y` -/
+def app (r : Status × Box × Box) (z : Box) : Status × Box × Box := (r.1, r.2.1, r.2.2 ++ z)
+
+theorem app_ite (c : Prop) [Decidable c] (a b : Status × Box × Box) (z : Box) :
+    app (if c then a else b) z = if c then app a z else app b z := by
+  split <;> rfl
+
+theorem lexEnforce_ext (x y z : Box) (q : Nat) (s : Bool) (hq : q < y.length) :
+    lexEnforce x (y ++ z) q s = app (lexEnforce x y q s) z := by
+  simp only [lexEnforce, getDom_append_left hq, List.set_append_left _ _ hq, app_ite]
+  rfl
+
+theorem lexState4_ext (x y z : Box) (n q : Nat) (hy : y.length = n) (hq : q < n) :
+    ∀ fuel i, lexState4 x (y ++ z) n q fuel i = app (lexState4 x y n q fuel i) z
+  | 0, _ => rfl
+  | fuel + 1, i => by
+    simp only [lexState4]
+    by_cases hi : i < n
+    · rw [getDom_append_left (by omega)]
+      split
+      · exact lexState4_ext x y z n q hy hq fuel (i + 1)
+      · split
+        · exact lexEnforce_ext x y z q true (by omega)
+        · rfl
+    · simp only [hi, false_and, ↓reduceIte]; rfl
+
+theorem lexState3_ext (x y z : Box) (n q : Nat) (hy : y.length = n) (hq : q < n) :
+    ∀ fuel i, i ≤ n → lexState3 x (y ++ z) n q fuel i = app (lexState3 x y n q fuel i) z
+  | 0, _, _ => rfl
+  | fuel + 1, i, hin => by
+    simp only [lexState3]
+    by_cases hi : i < n
+    · rw [getDom_append_left (by omega)]
+      split
+      · exact lexState3_ext x y z n q hy hq fuel (i + 1) (by omega)
+      · split
+        · exact lexEnforce_ext x y z q false (by omega)
+        · rfl
+    · have e : i = n := by omega
+      subst e
+      simp only [Nat.lt_irrefl, false_and, true_or, ↓reduceIte]
+      exact lexEnforce_ext x y z q false (by omega)
+
+theorem lexState2_ext (x y z : Box) (n q : Nat) (hy : y.length = n) (hq : q < n) :
+    ∀ fuel i, i ≤ n → lexState2 x (y ++ z) n q fuel i = app (lexState2 x y n q fuel i) z
+  | 0, _, _ => rfl
+  | fuel + 1, i, hin => by
+    simp only [lexState2]
+    by_cases hi : i < n
+    · rw [getDom_append_left (by omega)]
+      split
+      · exact lexState2_ext x y z n q hy hq fuel (i + 1) (by omega)
+      · split
+        · exact lexEnforce_ext x y z q false (by omega)
+        · split
+          · exact lexEnforce_ext x y z q true (by omega)
+          · split
+            · exact lexState3_ext x y z n q hy hq (n + 1) (i + 1) (by omega)
+            · split
+              · exact lexState4_ext x y z n q hy hq (n + 1) (i + 1)
+              · rfl
+    · have e : i = n := by omega
+      subst e
+      simp only [Nat.lt_irrefl, false_and, true_or, ↓reduceIte]
+      exact lexEnforce_ext x y z q false (by omega)
+
+theorem lexState1_ext (n : Nat) (z : Box) : ∀ (fuel i : Nat) (x y : Box), y.length = n → i ≤ n →
+    lexState1 n fuel i x (y ++ z) = app (lexState1 n fuel i x y) z
+  | 0, _, _, _, _, _ => rfl
+  | fuel + 1, i, x, y, hy, hin => by
+    simp only [lexState1]
+    by_cases hi : i < n
+    · rw [getDom_append_left (by omega), List.set_append_left _ _ (by omega)]
+      split
+      · split
+        · rfl
+        · split
+          · rfl
+          · exact lexState1_ext n z fuel (i + 1) _ _ (by simpa using hy) (by omega)
+      · split
+        · rfl
+        · split
+          · rfl
+          · split
+            · rfl
+            · exact lexState2_ext _ _ z n i (by simpa using hy) hi (n + 1) (i + 1) (by omega)
+    · have e : i = n := by omega
+      subst e
+      simp only [Nat.lt_irrefl, false_and, true_or, ↓reduceIte]; rfl
+
+/-- a call on an even box followed by at most one more domain: the extra domain is copied -/
+theorem lexLeq_app (ps : List Int) (B0 z : Box) (h0 : B0.length % 2 = 0) (hz : z.length ≤ 1) :
+    lexLeq ps (B0 ++ z) = ((lexLeq ps B0).1, (lexLeq ps B0).2 ++ z) := by
+  have hl : (B0 ++ z).length / 2 = B0.length / 2 := by simp; omega
+  simp only [lexLeq, hl]
+  rw [List.take_append_of_le_length (by omega), List.drop_append_of_le_length (by omega),
+    lexState1_ext _ z _ _ _ _ (by simp; omega) (by omega)]
+  simp [app]
+
+theorem decomp (B : Box) (h : 2 ≤ B.length) :
+    ∃ B0 z, B = B0 ++ z ∧ EvenC B0 ∧ z.length ≤ 1 :=
+  ⟨B.take (2 * (B.length / 2)), B.drop (2 * (B.length / 2)), (List.take_append_drop _ _).symm,
+    ⟨by simp; omega, by simp; omega⟩, by simp; omega⟩
+
+theorem lexLe_take : ∀ (xs ys : List Int) (k : Nat), xs.length ≤ k → (lexLe xs (ys.take k) ↔ lexLe xs ys)
+  | [], _, _, _ => by simp [lexLe]
+  | _ :: _, [], _, _ => by simp [lexLe]
+  | x :: xs, y :: ys, k + 1, h => by simp [lexLe, lexLe_take xs ys k (by simpa using h)]
+  | _ :: _, _ :: _, 0, h => by simp at h
+
+/-- the relation ignores the last entry of a tuple of odd length -/
+theorem rel_take (ps : List Int) (t : List Int) {m : Nat} (hm : m = 2 * (t.length / 2)) :
+    rel .lexLeq ps (t.take m) ↔ rel .lexLeq ps t := by
+  have hl : (t.take m).length / 2 = t.length / 2 := by simp; omega
+  simp only [rel, hl]
+  rw [List.take_take, List.drop_take, Nat.min_eq_left (by omega), lexLe_take _ _ _ (by simp; omega)]
+
+theorem inBox_split {t : List Int} {B0 z : Box} (h : inBox t (B0 ++ z)) :
+    inBox (t.take B0.length) B0 ∧ inBox (t.drop B0.length) z := by
+  have := inBox_take_drop B0.length h
+  rwa [List.take_left' rfl, List.drop_left' rfl] at this
+
+theorem inBox_join {t : List Int} {B0 z : Box} (h1 : inBox (t.take B0.length) B0) (h2 : inBox (t.drop B0.length) z) :
+    inBox t (B0 ++ z) := by
+  have := inBox_append h1 h2
+  rwa [List.take_append_drop] at this
+
+/-- a tuple of `z` with a chosen value at `j` -/
+theorem exists_inBox {z : Box} (hz : z.Nonempty) {j : Nat} (hj : j < z.length) {v : Int}
+    (hv : (getDom z j).1 ≤ v ∧ v ≤ (getDom z j).2) : ∃ tz, inBox tz z ∧ getI tz j = v :=
+  ⟨mk (upd (lo z) j v) z.length, inBox_mk rfl (inB_upd (inB_lo hz) hv), by rw [getI_mk _ hj, upd_same]⟩
+
+theorem exists_inBox' {z : Box} (hz : z.Nonempty) : ∃ tz, inBox tz z :=
+  ⟨mk (lo z) z.length, inBox_mk rfl (inB_lo hz)⟩
+
+theorem nonempty_left {X Y : Box} (h : (X ++ Y).Nonempty) : X.Nonempty := fun d hd => h d (List.mem_append_left _ hd)
+theorem nonempty_right {X Y : Box} (h : (X ++ Y).Nonempty) : Y.Nonempty := fun d hd => h d (List.mem_append_right _ hd)
+
+/-- the shape of every call in contract -/
+theorem run_app (ps : List Int) (B0 z : Box) (st : Status) (B' : Box) (hc : EvenC B0) (hz : z.length ≤ 1)
+    (hrun : runAlg .lexLeq ps (B0 ++ z) = .ok (st, B')) :
+    ∃ B0', runAlg .lexLeq ps B0 = .ok (st, B0') ∧ B' = B0' ++ z := by
+  rw [runAlg_lexLeq, lexLeq_app ps B0 z hc.2 hz] at hrun
+  injection hrun with hrun
+  injection hrun with h1 h2
+  exact ⟨(lexLeq ps B0).2, by rw [runAlg_lexLeq, ← h1], h2.symm⟩
+
+theorem sound_gen (ps : List Int) (B : Box) (st : Status) (B' : Box) (hc : 2 ≤ B.length) (hne : B.Nonempty)
+    (hrun : runAlg .lexLeq ps B = .ok (st, B')) :
+    (st ≠ .inc → Box.le B' B ∧ B'.Nonempty ∧ ∀ t, inBox t B → rel .lexLeq ps t → inBox t B') ∧
+    (st = .inc → ∀ t, inBox t B → ¬ rel .lexLeq ps t) := by
+  obtain ⟨B0, z, rfl, hc0, hz⟩ := decomp B hc
+  obtain ⟨B0', hrun0, rfl⟩ := run_app ps B0 z st B' hc0 hz hrun
+  have hs := sound_even ps B0 st B0' hc0 (nonempty_left hne) hrun0
+  have hm : ∀ t, inBox t (B0 ++ z) → B0.length = 2 * (t.length / 2) := by
+    intro t ht
+    have h1 := inBox_length ht
+    have := hc0.2
+    simp at h1; omega
+  refine ⟨fun hst => ?_, fun hst t ht hrel => ?_⟩
+  · obtain ⟨l, ne, keep⟩ := hs.1 hst
+    refine ⟨le_append l (Box.le_refl z), nonempty_append ne (nonempty_right hne), fun t ht hrel => ?_⟩
+    obtain ⟨t1, t2⟩ := inBox_split ht
+    have k := keep _ t1 ((rel_take ps t (hm t ht)).mpr hrel)
+    rw [← Box.le_length l] at k t2
+    exact inBox_join k t2
+  · obtain ⟨t1, _⟩ := inBox_split ht
+    exact hs.2 hst _ t1 ((rel_take ps t (hm t ht)).mpr hrel)
+
+theorem entail_gen (ps : List Int) (B B' : Box) (hc : 2 ≤ B.length) (hne : B.Nonempty)
+    (hrun : runAlg .lexLeq ps B = .ok (.ent, B')) : ∀ t, inBox t B' → rel .lexLeq ps t := by
+  intro t ht
+  obtain ⟨B0, z, rfl, hc0, hz⟩ := decomp B hc
+  obtain ⟨B0', hrun0, rfl⟩ := run_app ps B0 z .ent B' hc0 hz hrun
+  have hl := Box.le_length ((sound_even ps B0 .ent B0' hc0 (nonempty_left hne) hrun0).1 (by simp)).1
+  obtain ⟨t1, _⟩ := inBox_split ht
+  have := inBox_length ht
+  have := hc0.2
+  refine (rel_take ps t ?_).mp (entail_even ps B0 B0' hc0 (nonempty_left hne) hrun0 _ t1)
+  simp at *; omega
+
+theorem ground_gen (ps : List Int) (B : Box) (st : Status) (B' : Box) (t : List Int) (hc : 2 ≤ B.length)
+    (hne : B.Nonempty) (hrun : runAlg .lexLeq ps B = .ok (st, B')) (hst : st ≠ .inc)
+    (hB' : B' = pointBox t) : rel .lexLeq ps t := by
+  obtain ⟨B0, z, rfl, hc0, hz⟩ := decomp B hc
+  obtain ⟨B0', hrun0, rfl⟩ := run_app ps B0 z st B' hc0 hz hrun
+  have hl := Box.le_length ((sound_even ps B0 st B0' hc0 (nonempty_left hne) hrun0).1 hst).1
+  have e : B0' = pointBox (t.take B0'.length) := by
+    have := congrArg (List.take B0'.length) hB'
+    rw [List.take_left' rfl] at this
+    rw [this]; simp [pointBox]
+  have hlen : (B0' ++ z).length = t.length := by rw [hB']; simp [pointBox]
+  have := hc0.2
+  refine (rel_take ps t ?_).mp (ground_even ps B0 st B0' _ hc0 (nonempty_left hne) hrun0 hst e)
+  simp at hlen; omega
+
+theorem exact_gen (ps : List Int) (B : Box) (st : Status) (B' : Box) (hc : 2 ≤ B.length) (hne : B.Nonempty)
+    (hrun : runAlg .lexLeq ps B = .ok (st, B')) (hst : st ≠ .inc) :
+    (∀ k, k < B'.length →
+      (∃ t, inBox t B' ∧ rel .lexLeq ps t ∧ getI t k = (getDom B' k).1) ∧
+      (∃ t, inBox t B' ∧ rel .lexLeq ps t ∧ getI t k = (getDom B' k).2)) ∧
+    (∃ st', runAlg .lexLeq ps B' = .ok (st', B') ∧ st' ≠ .inc) := by
+  obtain ⟨B0, z, rfl, hc0, hz⟩ := decomp B hc
+  obtain ⟨B0', hrun0, rfl⟩ := run_app ps B0 z st B' hc0 hz hrun
+  have hl := Box.le_length ((sound_even ps B0 st B0' hc0 (nonempty_left hne) hrun0).1 hst).1
+  obtain ⟨hsupp, st', hidem, hst'⟩ := exact_even ps B0 st B0' hc0 (nonempty_left hne) hrun0 hst
+  have hnz := nonempty_right hne
+  have hc0' : EvenC B0' := by unfold EvenC; rw [hl]; exact hc0
+  -- a solution of the even part, completed by any entry for the ignored variable
+  have build : ∀ t0 tz, inBox t0 B0' → inBox tz z → rel .lexLeq ps t0 →
+      inBox (t0 ++ tz) (B0' ++ z) ∧ rel .lexLeq ps (t0 ++ tz) := by
+    intro t0 tz h0 h1 hr
+    refine ⟨inBox_append h0 h1, ?_⟩
+    have a := inBox_length h0
+    have b := inBox_length h1
+    have := hc0'.2
+    have := (rel_take ps (t0 ++ tz) (m := t0.length) (by simp; omega))
+    rw [List.take_left' rfl] at this
+    exact this.mp hr
+  refine ⟨fun k hk => ?_, ?_⟩
+  · by_cases hk0 : k < B0'.length
+    · rw [getDom_append_left hk0]
+      obtain ⟨tz, htz⟩ := exists_inBox' hnz
+      obtain ⟨⟨t, h1, h2, h3⟩, ⟨u, g1, g2, g3⟩⟩ := hsupp k hk0
+      refine ⟨⟨t ++ tz, (build t tz h1 htz h2).1, (build t tz h1 htz h2).2, ?_⟩,
+        ⟨u ++ tz, (build u tz g1 htz g2).1, (build u tz g1 htz g2).2, ?_⟩⟩
+      · rw [getI_append_left (by rw [inBox_length h1]; exact hk0)]; exact h3
+      · rw [getI_append_left (by rw [inBox_length g1]; exact hk0)]; exact g3
+    · have hj : k - B0'.length < z.length := by simp at hk; omega
+      have ek : k = B0'.length + (k - B0'.length) := by omega
+      obtain ⟨⟨t, h1, h2, _⟩, _⟩ := hsupp 0 (by have := hc0'.1; omega)
+      have hd := Box.nonempty_get hnz _ hj
+      obtain ⟨tz, htz, e⟩ := exists_inBox hnz hj (v := (getDom z (k - B0'.length)).1) ⟨Int.le_refl _, hd⟩
+      obtain ⟨uz, huz, f⟩ := exists_inBox hnz hj (v := (getDom z (k - B0'.length)).2) ⟨hd, Int.le_refl _⟩
+      rw [ek, getDom_append_right]
+      refine ⟨⟨t ++ tz, (build t tz h1 htz h2).1, (build t tz h1 htz h2).2, ?_⟩,
+        ⟨t ++ uz, (build t uz h1 huz h2).1, (build t uz h1 huz h2).2, ?_⟩⟩
+      · rw [← inBox_length h1, getI_append_right, inBox_length h1]; exact e
+      · rw [← inBox_length h1, getI_append_right, inBox_length h1]; exact f
+  · refine ⟨st', ?_, hst'⟩
+    rw [runAlg_lexLeq] at hidem ⊢
+    injection hidem with hidem
+    rw [lexLeq_app ps B0' z hc0'.2 hz, hidem]
+
+end Lex
+
+open Lex
+
+/-! ### the local contracts (any arity `≥ 2`; with an odd arity the last variable is ignored) -/
+
+theorem sound_lexLeq : Sound .lexLeq :=
+  fun ps B st B' hc hne hrun => sound_gen ps B st B' hc hne hrun
+
+theorem entailOk_lexLeq : EntailOk .lexLeq :=
+  fun ps B B' hc hne hrun => entail_gen ps B B' hc hne hrun
+
+theorem groundOk_lexLeq : GroundOk .lexLeq :=
+  fun ps B st B' t hc hne hrun hst hB' => ground_gen ps B st B' t hc hne hrun hst hB'
+
+theorem exact_lexLeq : Exact .lexLeq :=
+  fun ps B st B' hc hne hrun hst => exact_gen ps B st B' hc hne hrun hst
+
+theorem contractMono_lexLeq : ContractMono .lexLeq := by
+  intro ps B B' hc hle
+  simp only [Contract] at *
+  rw [Box.le_length hle]; exact hc
+
+theorem safe_lexLeq : Safe .lexLeq := fun ps B _ _ => ⟨_, runAlg_lexLeq ps B⟩
+
+theorem trigOk_lexLeq : TrigOk .lexLeq := Lex.trigOk_of_minMax .lexLeq sound_lexLeq (fun _ _ _ => rfl)
+
+/-- the relaxed contract covers the symmetry-breaking constraint of the Schur-lemma model for `n = 3`
+    (`3n = 9` variables: an odd arity) -/
+example : Contract .lexLeq [] (List.replicate 9 (0, 1)) := by simp [Contract]
 
 end Nucs
